@@ -34,6 +34,26 @@ const (
 	// the range that took the place of another block, the valid filter of the
 	// replaced block at that height under the new block's hash.
 	KStaleBranch = "stale-branch"
+	// KLagShift (lag phase only): an answer that names blocks above the
+	// client's filter-header tip (which have no committed filter header) but
+	// carries the GENUINE filters of earlier blocks: the entry for height x
+	// carries the filter of block x-Shift. Pos says which entries of the answer
+	// are shifted (target: only the block asked for; above: every block above
+	// the filter-header tip; all: the whole range, i.e. the range moved down by
+	// Shift blocks); the other entries are honest. The block asked for is always
+	// named, also when the request on the wire does not cover it.
+	KLagShift = "lag-shift"
+)
+
+// Relations between the shift of a KLagShift answer and the block asked for
+// (Up blocks above the filter-header tip, L blocks of lag): the plan states the
+// intent, the scenario resolves it to Spec.Shift when the heights are known.
+const (
+	RelToFilterTip    = "to-filter-tip"    // Shift = Up: the target carries the filter of the last block with a committed header
+	RelOneBelow       = "one-below"        // Shift = 1: every entry carries its predecessor's filter
+	RelLagDepth       = "lag-depth"        // Shift = L
+	RelWithinLag      = "within-lag"       // 1 <= Shift < Up: the filter of another block without committed header
+	RelBelowFilterTip = "below-filter-tip" // Shift > Up: the filter of a block below the filter-header tip
 )
 
 // Corruptions of one entry.
@@ -65,6 +85,12 @@ type Spec struct {
 	Corr  string `json:",omitempty"`
 	Keep  string `json:",omitempty"` // corrupt: "" replace, "before" bad copy then the good entry, "after" good then bad
 	Order string `json:",omitempty"` // "", shuffle, reverse: applied to the final stream
+	// KLagShift: Rel is the planned relation (resolved to Shift, and normalised
+	// to to-filter-tip / within-lag / below-filter-tip, at run time); Push adds
+	// the TRUE filters of all blocks above the filter-header tip to the answer.
+	Rel   string `json:",omitempty"`
+	Shift int32  `json:",omitempty"`
+	Push  bool   `json:",omitempty"`
 }
 
 // Label is the mutation kind used in fingerprints and counters.
@@ -76,6 +102,15 @@ func (s Spec) Label() string {
 			l += "+good-" + s.Keep
 		}
 	}
+	if s.Kind == KLagShift {
+		l += ":" + s.Rel
+		if s.Keep != "" {
+			l += "+good-" + s.Keep
+		}
+		if s.Push {
+			l += "+push"
+		}
+	}
 	if s.Order != "" && s.Kind != KShuffle && s.Kind != KReverse {
 		l += "~" + s.Order
 	}
@@ -85,7 +120,7 @@ func (s Spec) Label() string {
 // PosClass is the position class for fingerprints.
 func (s Spec) PosClass() string {
 	switch s.Kind {
-	case KCorrupt:
+	case KCorrupt, KLagShift:
 		return s.Pos
 	case KDupTarget, KOmitTarget, KOmitOthers:
 		return "target"
@@ -129,6 +164,28 @@ type Call struct {
 	Rel  bool  `json:",omitempty"`
 	Back int32 `json:",omitempty"`
 	Twin bool  `json:",omitempty"`
+	// Lag family: the target is the block Up blocks above the client's
+	// filter-header tip at the time of the call (Height is filled in then).
+	Up int32 `json:",omitempty"`
+}
+
+// LagStep is one step of a lag phase: the block-header chain moves while the
+// peers withhold the filter headers of its new blocks, so that afterwards the
+// client's block-header tip is above its filter-header tip; then the Calls ask
+// for blocks above the filter-header tip (Call.Up) while the peers answer
+// with Muts[i] (one Spec per peer; nil = every peer pushes, KLagPush).
+// Depth == 0: the chain grows by Grow blocks (the lag grows by Grow).
+// Depth > 0: the last Depth blocks of the block-header chain (blocks without
+// committed filter header first, then committed ones: their filter headers are
+// rolled back with them) are replaced by a heavier branch of Depth+Extra
+// blocks whose filter headers are withheld as well: the state a rollback
+// leaves behind until the filter headers of the new branch arrive.
+type LagStep struct {
+	Grow  int      `json:",omitempty"`
+	Depth int      `json:",omitempty"`
+	Extra int      `json:",omitempty"`
+	Calls []Call   `json:",omitempty"`
+	Muts  [][]Spec `json:",omitempty"`
 }
 
 // ReorgPhase is one re-organisation of the honest chain between GetCFilter
@@ -172,11 +229,16 @@ type Plan struct {
 	// Lag > 0: final phase in which the chain grows by Lag blocks whose
 	// headers the peers serve while withholding their filter headers (block
 	// header tip above filter header tip), then LagCalls ask for those blocks.
-	Lag      int     `json:",omitempty"`
-	LagCalls []Call  `json:",omitempty"`
-	BudgetS  float64 // worst-case seconds of forced worker timeouts planned
+	// LagMuts[i] (optional) is what the peers answer during LagCalls[i].
+	// LagSteps (lag family) replaces Lag/LagCalls by a sequence of steps.
+	Lag      int       `json:",omitempty"`
+	LagCalls []Call    `json:",omitempty"`
+	LagMuts  [][]Spec  `json:",omitempty"`
+	LagSteps []LagStep `json:",omitempty"`
+	BudgetS  float64   // worst-case seconds of forced worker timeouts planned
 	// Family: "" (mutation scripts on one fixed chain, optionally with re-org
-	// phases woven in) or "reorg" (re-org phases are the scenario).
+	// phases woven in), "reorg" (re-org phases are the scenario) or "lag" (the
+	// lag phase is the scenario).
 	Family string       `json:",omitempty"`
 	Fixed  bool         `json:",omitempty"` // seed-independent scenario
 	Reorgs []ReorgPhase `json:",omitempty"`
@@ -736,6 +798,18 @@ func MakePlan(seed int64, k int, quick bool) Plan {
 			}
 			p.LagCalls = append(p.LagCalls, c)
 			p.BudgetS += 2
+		}
+		// What the peers answer during those calls, from its own generator (the
+		// draws above do not depend on it).
+		rl := rand.New(rand.NewSource(seed*1_000_003 + int64(k)*611953 + 70707))
+		for i := range p.LagCalls {
+			c := &p.LagCalls[i]
+			c.Up = c.Height - int32(p.ChainLen)
+			if c.Batch == "rev" && c.Cap > 0 && c.Cap < int64(c.Up) {
+				c.Cap = int64(c.Up) // see lagSafe
+			}
+			muts, _ := lagMuts(rl, p.NPeers, c.Up, int32(p.Lag))
+			p.LagMuts = append(p.LagMuts, muts)
 		}
 	}
 	if k%3 != 1 && k%4 != 2 {
